@@ -122,8 +122,8 @@ Definition layout (k : kind) : list fld :=
   | KDescStats => [FB 256; FB 256; FB 256; FB 32; FB 256]
   | KFlowStats => [FU 2; FU 1; FU 1; FU 4; FU 4; FU 2; FU 2; FU 2; FU 2; FZ 4; FU 8; FU 8; FU 8]
   | KAggStats => [FU 8; FU 8; FU 4; FZ 4]
-  | KTableStats => [FU 1; FZ 3; FB 32; FU 4; FU 4; FU 4; FU 8; FU 8]
-  | KPortStats => [FU 2; FZ 6; FU 8; FU 8; FU 8; FU 8; FU 8; FU 8; FU 8; FU 8; FU 8; FU 8; FU 8; FU 8]
+  | KTableStats => [FU 1; FU 4; FU 4; FU 4; FU 8; FU 8; FZ 35]      (* as decoded through new(TableStats): nil pad and name *)
+  | KPortStats => [FU 2; FU 8; FU 8; FU 8; FU 8; FU 8; FU 8; FU 8; FU 8; FU 8; FU 8; FU 8; FU 8; FZ 6]   (* as decoded through new(PortStats): nil pad *)
   | KQueueStats => [FU 2; FZ 2; FU 4; FU 8; FU 8; FU 8]
   | KTlvTableReply => [FU 4; FU 2; FZ 10]
   | KEth => [FB 6; FB 6]
@@ -246,7 +246,8 @@ Fixpoint glen (t : tree) : N :=
 (* the slot MarshalBinary overwrites with Len() before writing, if any *)
 Definition writeback (k : kind) : option nat :=
   match k with
-  | KHello | KSwitchConfig | KFlowMod | KGroupMod | KPacketOut | KPortMod | KMultipartReq | KVendor => Some 2%nat
+  | KHello | KSwitchConfig | KFlowMod | KGroupMod | KPacketOut | KPortMod | KMultipartReq | KVendor
+  | KPortStatus | KMultipartReply | KFeatures => Some 2%nat
   | KBucket => Some 0%nat
   | KNxLearn | KNxNote | KNxRegLoad2 | KNxController | KNxNat => Some 1%nat
   | _ => None
